@@ -190,6 +190,8 @@ def operations(rng, ns, quant_ok):
     lo, hi = rng.choice([(0, 127), (40, 80), (60, 72)])
     ops.append(('transpose_range', lambda s: call(lambda x: sl.transpose_note_sequence(x, k, lo, hi)[0], s)))
     ops.append(('sustain_other_cc', lambda s: call(sl.apply_sustain_control_changes, s, 63)))
+    ops.append(('transpose_nochords', lambda s: call(lambda x: sl.transpose_note_sequence(x, k, transpose_chords=False)[0], s)))
+    ops.append(('split_time_changes_inside', lambda s: call(sl.split_note_sequence_on_time_changes, s, True)))
     if quant_ok:
         def extract_events(s):
             q = sl.quantize_note_sequence(s, spq)
